@@ -19,6 +19,7 @@ package server
 
 import (
 	"encoding/hex"
+	"encoding/json"
 	"fmt"
 	"os"
 	"sort"
@@ -688,6 +689,19 @@ type vfC10Answer struct {
 	Error   bool // RESULT_ERROR: forwarding failed
 	Repr    string
 	Result  int
+	// Unheld: the key had no hold when the request arrived. The value such a reply carries is the value
+	// of a key nobody holds, which the server reclaims lazily (seconds later, real time): it may or may
+	// not still be there, at the leader just as through the follower. NoData is Repr without the value.
+	Unheld bool
+	NoData string
+}
+
+// vfC10Same: field-for-field equality; the lingering value of an unheld key is left out.
+func vfC10Same(a, b vfC10Answer) bool {
+	if a.Repr == b.Repr {
+		return true
+	}
+	return a.Unheld && b.Unheld && a.NoData == b.NoData
 }
 
 func vfC10BuildBinary(o *vfC10Pair, prefix string) *protocol.LockCommand {
@@ -743,17 +757,36 @@ func vfC10BinAnswer(r *vfBinResult) vfC10Answer {
 	for x := 37; x < 53; x++ {
 		raw[x] = 0 // key
 	}
-	return vfC10Answer{Refused: r.Result == protocol.RESULT_STATE_ERROR, Error: r.Result == protocol.RESULT_ERROR, Result: int(r.Result),
+	a := vfC10Answer{Refused: r.Result == protocol.RESULT_STATE_ERROR, Error: r.Result == protocol.RESULT_ERROR, Result: int(r.Result),
 		Repr: fmt.Sprintf("%s lockid=%x lcount=%d lrcount=%d raw=%x data=%x", vfResName(r.Result), r.LockId, r.LCount, r.LRCount, raw, r.Data)}
+	raw[20] &^= protocol.LOCK_FLAG_CONTAINS_DATA
+	a.NoData = fmt.Sprintf("%s lockid=%x lcount=%d lrcount=%d raw=%x", vfResName(r.Result), r.LockId, r.LCount, r.LRCount, raw)
+	a.Unheld = (r.LCount == 0 && r.Result != protocol.RESULT_SUCCED) || (r.Type == protocol.COMMAND_LOCK && r.Result == protocol.RESULT_SUCCED && r.LCount <= 1 && r.LRCount <= 1)
+	return a
 }
 
 func vfC10TextAnswer(v *vfRespValue) vfC10Answer {
 	a := vfC10Answer{Refused: vfC10TextRefusal(v), Repr: v.String(), Result: -1}
+	a.NoData = a.Repr
 	if v.Kind == '*' && len(v.Array) > 0 {
 		fmt.Sscanf(v.Array[0].Str, "%d", &a.Result)
 		if a.Result == protocol.RESULT_ERROR {
 			a.Error = true
 		}
+		lcount, lrcount := -1, -1
+		for x := 0; x+1 < len(v.Array); x++ {
+			switch v.Array[x].Str {
+			case "LCOUNT":
+				fmt.Sscanf(v.Array[x+1].Str, "%d", &lcount)
+			case "LRCOUNT":
+				fmt.Sscanf(v.Array[x+1].Str, "%d", &lrcount)
+			case "DATA":
+				w := *v
+				w.Array = v.Array[:x]
+				a.NoData = w.String()
+			}
+		}
+		a.Unheld = (lcount == 0 && a.Result != protocol.RESULT_SUCCED) || (a.Result == protocol.RESULT_SUCCED && lcount == 1 && lrcount == 1)
 	}
 	if v.Kind == '-' && !a.Refused {
 		a.Error = strings.Contains(v.Str, "Lock Error")
@@ -973,7 +1006,7 @@ func (cl *vfC10Cluster) queuedMacro(phase string, keyBase int) bool {
 	if !ok {
 		return false
 	}
-	if a1.Repr != r1.Repr {
+	if !vfC10Same(a1, r1) {
 		c.violate("relay-differs", "relayed-reply-differs-from-leaders", "request %q through the follower (phase %s) was answered\n  %s\nbut directly at the leader\n  %s", hold.String(), phase, a1.Repr, r1.Repr)
 		return false
 	}
@@ -1042,7 +1075,7 @@ func (cl *vfC10Cluster) queuedMacro(phase string, keyBase int) bool {
 		c.part.Add("cluster_refusals", 1)
 		return true
 	}
-	if a2.Repr != r2.Repr || a3.Repr != r3.Repr {
+	if !vfC10Same(a2, r2) || !vfC10Same(a3, r3) {
 		c.violate("relay-differs", "relayed-reply-differs-from-leaders", "a request that waited in the leader's queue (or the release that woke it), sent through the follower in phase %s, was answered\n  %s / %s\nbut directly at the leader\n  %s / %s", phase, a2.Repr, a3.Repr, r2.Repr, r3.Repr)
 		return false
 	}
@@ -1111,7 +1144,7 @@ func (cl *vfC10Cluster) probeFirstCommand(phase string, keyBase, nKeys int) bool
 	}
 	c.note("[%s] first text command %s -> at follower: %s | at leader: %s", phase, o.String(), aF.Repr, aR.Repr)
 	cl.learn(o, aR)
-	if aF.Repr != aR.Repr {
+	if !vfC10Same(aF, aR) {
 		sig := "relayed-reply-differs-from-leaders"
 		if aF.Result == protocol.RESULT_UNLOCK_ERROR {
 			sig = vfC10SigUnlockLocal
@@ -1171,7 +1204,7 @@ func (cl *vfC10Cluster) pairedScript(phase string, n int, keyBase int, nKeys int
 			return false
 		}
 		c.note("[%s] %s -> follower path: %s | leader: %s", phase, o.String(), aF.Repr, aR.Repr)
-		if aF.Repr != aR.Repr {
+		if !vfC10Same(aF, aR) {
 			c.violate("relay-differs", "relayed-reply-differs-from-leaders", "request %q sent through the follower (%s protocol, phase %s) was answered\n  %s\nbut the same script position directly at the leader gives\n  %s", o.String(), map[bool]string{true: "text", false: "binary"}[cl.text], phase, aF.Repr, aR.Repr)
 			return false
 		}
@@ -1334,7 +1367,7 @@ func vfC10ClusterCase(env *vfEnv, part *vfPart, i int) {
 			return
 		}
 		c.note("[ccheck] %s -> follower path: %s | leader: %s", o.String(), aF.Repr, aR.Repr)
-		if aF.Repr != aR.Repr {
+		if !vfC10Same(aF, aR) {
 			c.violate("relay-differs", "relayed-reply-differs-from-leaders", "concurrent-check request %q through the caught-up follower was answered\n  %s\nbut directly at the leader\n  %s", o.String(), aF.Repr, aR.Repr)
 			return
 		}
@@ -1522,6 +1555,15 @@ func TestVerif_C10(t *testing.T) {
 	start := time.Now()
 	vfContinueAfterPanic = true
 	env := vfGetEnv("C10")
+	if env.Replay != "" {
+		// a replay file names the seed of the run that produced it
+		var doc struct {
+			Seed int64 `json:"seed"`
+		}
+		if b, err := os.ReadFile(env.Replay); err == nil && json.Unmarshal(b, &doc) == nil && doc.Seed != 0 {
+			env.Seed = doc.Seed
+		}
+	}
 	nCluster := env.N(480, 12000)
 	nClock := env.N(600, 15000)
 	nConn := env.N(1500, 40000)
